@@ -24,7 +24,7 @@ RULE = (
     "a reduced alphabet: 12 (deps, kind) descriptors in quick, 16 in thorough): each validator has an enumerated dependency set (every non-empty subset of the fields, read "
     "directly, through a helper method, through a property, through a functools.cached_property, or through a diamond of helper methods shared by the validators), a kind in {plain, validator(field), validator(f, discard=g), validator(discard=g) for "
     "every field g}, an error style in {raise, yield message, yield (get_alias(self).f, message), yield (0, message)}, declared in the class or "
-    "in a base class; x every datum assigning each field one of {absent, valid, invalid} x every pass/fail vector x aliaser "
+    "in a base class (also with the helper method it reads overridden in the subclass deserialized); x every datum assigning each field one of {absent, valid, invalid} x every pass/fail vector x aliaser "
     "in {identity, camelCase}. Observed: the exact sequence of validators invoked (each logs its name first), the sorted "
     "error list, whether the object was constructed. Oracle: 25-line reference rule from the property statement; "
     "termination under a watchdog with recursion limit 300. distinct_nontrivial counts distinct (validator descriptors, "
@@ -121,6 +121,9 @@ def class_src(cname: str, vals: List[tuple], inherit: bool) -> str:
         L.append(f"class {cname}(B{cname}):")
         L.append("    c: int = field(default=0)")
         L += helpers[8:]
+        if inherit == "override":
+            # the helper read by the inherited validator is overridden: in this class its dependency is c, not b
+            L += ["    def helper_b(self):", "        return self.c"]
         for v in vals[1:]:
             L += validator_src(*v, by_name=True)
     else:
@@ -167,8 +170,13 @@ def reference(vals: List[tuple], vec: Dict[str, str], fails: Dict[str, bool], al
     provided = {f for f, s in vec.items() if s == "valid"}
     log = []
     discarded = set()
+    v0_name = vals[-1][0] if inherit else None
     for name, deps, (kind, target), style in vals:
+        declared = deps
         deps = set(deps)
+        if inherit == "override":
+            # helper_b is overridden in the class deserialized: whoever reads b through it reads c
+            deps = {"c" if d == "b" else d for d in deps}
         if not (deps & provided):
             continue
         if deps & invalid:
@@ -180,7 +188,7 @@ def reference(vals: List[tuple], vec: Dict[str, str], fails: Dict[str, bool], al
             msg = name + " failed"
             loc: tuple = ()
             if style == "yield_path":
-                loc = (aliaser(ALIAS[sorted(deps, key=FIELDS.index)[0]]),)
+                loc = (aliaser(ALIAS[declared[0]]),)
             elif style == "yield_index0":
                 loc = (0,)
             if kind == "field":
@@ -284,6 +292,10 @@ def class_space(tier: str) -> Iterator[Tuple[List[tuple], bool]]:
     for (d0, k0), (d1, k1) in itertools.product(dk, dk):
         if all(d in ("a_x", "b") for d in d0) and k0[1] in (None, "a_x", "b"):
             yield [("v0", d0, k0, "raise"), ("v1", d1, k1, "raise")], True
+    # a helper method read by the inherited validator is overridden in the subclass
+    for (d0, k0), (d1, k1) in itertools.product(dk, dk):
+        if "b" in d0 and all(d in ("a_x", "b") for d in d0) and k0[1] in (None, "a_x", "b") and k1[0] in ("plain", "discard"):
+            yield [("v0", d0, k0, "raise"), ("v1", d1, k1, "raise")], "override"
     # three validators (successive discards accumulate): reduced alphabet; thorough adds the third dependency pair
     small_deps = (("a_x",), ("b",), ("b", "c"), ("a_x", "c")) if tier == "thorough" else (("a_x",), ("b",), ("a_x", "c"))
     if True:
